@@ -40,6 +40,10 @@ let sendable (s : string) =
 
 let read_file path = try let ic = open_in_bin path in let n = in_channel_length ic in let s = really_input_string ic n in close_in ic; Some s with _ -> None
 
+let mirror_tok t =
+  if String.length t <> 3 || String.contains t 'T' then t
+  else Printf.sprintf "%c%c%c" (if t.[0] = 'a' then 'b' else 'a') t.[2] t.[1]
+
 let () =
   let cases = read_lines Sys.argv.(1) in
   let impl = impl_table Sys.argv.(2) in
@@ -51,86 +55,107 @@ let () =
     | Some bar ->
       let cfgw = words (String.sub line 0 bar) in
       let ops = List.map String.trim (split_on ';' (String.sub line (bar + 1) (String.length line - bar - 1))) in
-      let script = List.fold_left (fun acc o -> if starts_with "note script=" o then split_on '/' (String.sub o 12 (String.length o - 12)) else acc) [] ops in
-      let req = List.find_opt (fun o -> starts_with "search " o || starts_with "gai " o || starts_with "ghbn " o) ops in
-      (match req with
-       | None -> Printf.printf "CASE %d trivial-norequest\n" k
-       | Some req ->
-         let rw = words req in
-         let api = List.nth rw 0 in
-         let nm = (match List.nth_opt rw 2 with Some "-" -> "" | Some s -> s | None -> "") in
-         let fam = if api = "search" then 4 else (match List.nth_opt rw 3 with Some f -> int_of_string f | None -> 0) in
-         let unspec = api <> "search" && fam = 0 in
-         let flags = match field cfgw "flags" with
-           | None -> 256
-           | Some l -> List.fold_left (fun a f -> a lor (try List.assoc f flag_bits with Not_found -> (match int_of_string_opt f with Some n -> n | None -> 0))) 0 (split_on ',' l) in
-         let ndots = match field cfgw "ndots" with Some n -> int_of_string n | None -> 1 in
-         let doms = match field cfgw "domains" with Some "-" | None -> [] | Some l -> split_on ',' l in
-         let env = match field cfgw "hostaliases" with
-           | None -> None
-           | Some p -> (match read_file p with Some s -> Some (Ok (bytes_of_string s)) | None -> Some (Err aRES_ENOTFOUND)) in
-         let cfg = { c_flags = z_of_int flags; c_ndots = n_of_int ndots; c_domains = List.map bytes_of_string doms } in
-         let qn = bytes_of_string nm in
-         let al = lookup_hostaliases cfg.c_flags qn env in
-         let tok i = match List.nth_opt script i with Some t when t <> "" -> t | _ -> (if unspec then "aXX" else "X") in
-         let o1 i = let t = tok (int_of_nat i) in ai_of_letter t.[0] in
-         let o2 i = let t = tok (int_of_nat i) in
-           if String.length t >= 3 then (ai_of_letter t.[1], ai_of_letter t.[2]) else (ai_of_letter 'X', ai_of_letter 'X') in
-         let osearch i = let t = tok (int_of_nat i) in z_of_int (status_of_letter t.[0]) in
-         (* specification *)
-         let ospec = if api = "search" then osearch
-           else if unspec then (fun i -> let (f, l) = o2 i in ai_status (ai2_combine f l))
-           else (fun i -> ai_status (o1 i)) in
-         let onion = is_onion_domain qn in
-         let cands = match al with Ok a -> Some (spec_candidates cfg a qn) | _ -> None in
-         let spec = if onion then Some ([], aRES_ENOTFOUND)
-           else match al, cands with
-             | Ok _, Some c -> Some (spec_queried c ospec, spec_status c ospec)
-             | Err s, _ -> Some ([], s)
-             | _ -> None in
-         (* code-shaped model *)
-         let model =
-           if api = "search" then (match search_int true cfg qn env osearch with Ok r -> Some r | _ -> None)
-           else if onion then Some ([], aRES_ENOTFOUND)
-           else (match search_name_list cfg qn env with
-               | Err s -> Some ([], s)
-               | Ok l -> (match strip_none l with
-                   | Ok names -> (match (if unspec then ai2_run names o2 else ai_run names o1) with Ok r -> Some r | _ -> None)
-                   | _ -> None)
-               | UB _ -> None) in
-         let expand (sent, st) =
-           let names = List.map (fun n -> wire_norm (string_of_bytes n)) sent in
-           let qs = if unspec then List.concat_map (fun n -> [n ^ "/1"; n ^ "/28"]) names
-             else List.map (fun n -> n ^ (if fam = 6 then "/28" else "/1")) names in
-           Printf.sprintf "tx=[%s] status=%s" (String.concat "," qs) (string_of_z st) in
-         (* implementation *)
-         let txs = List.filter_map (fun l -> if starts_with "TX " l then
-                       (let w = words l in match field w "qname", field w "qtype" with
-                         | Some q, Some t -> Some (wire_norm q ^ "/" ^ t) | _ -> None) else None) lines in
-         let cbs = List.filter (starts_with "CB t1 ") lines in
-         let unsendable = (not onion) && (match cands with Some c -> List.exists (fun n -> not (sendable (string_of_bytes n))) c | None -> false) in
-         let shape = match spec, cands with
-           | Some (q, s), Some c when not onion ->
-             let st = int_of_z s and nq = List.length q and n = List.length c in
-             (if nq < n then (if st = 0 then "stop-data" else "stop-hard")
-              else if st = 0 then "last-data" else if st = 1 then "exhaust-nodata" else if st = 4 then "exhaust-notfound"
-              else if st = 3 || st = 6 then "last-servfail-refused" else "last-hard") ^ (if n = 1 then "-1cand" else "-ncand")
-           | _ -> "no-query" in
-         let apiname = if api = "search" then "search" else api ^ (string_of_int fam) in
-         if unsendable then Printf.printf "CASE %d trivial-unsendable-candidate\n" k
-         else begin
-           Printf.printf "CASE %d %s-%s%s\n" k apiname shape (match al with Ok (Some _) -> "-alias" | _ -> "");
-           match cbs with
-           | [] -> if not monitor then Printf.printf "FAIL %d no-callback %s\n" k (String.concat " / " (List.filter (starts_with "ENDSTATE") lines))
-           | cb :: rest ->
-             let st = match field (words cb) "status" with Some s -> s | None -> "?" in
-             let istr = Printf.sprintf "tx=[%s] status=%s" (String.concat "," txs) st in
-             (match model with
-              | Some m -> if expand m <> istr then Printf.printf "DIFF %d model=[%s] impl=[%s]\n" k (expand m) istr
-              | None -> Printf.printf "DIFF %d model has no result; impl=[%s]\n" k istr);
-             (match spec with
-              | Some s -> if expand s <> istr then Printf.printf "FAIL %d stop-rule spec=[%s] impl=[%s]\n" k (expand s) istr
-              | None -> ());
-             if rest <> [] || List.exists (fun l -> starts_with "CB " l && (let n = String.length l in n >= 3 && String.sub l (n - 3) 3 = "DUP")) lines then
-               Printf.printf "FAIL %d callback-count more than one callback for the request\n" k
-         end)) cases
+      let script0 = List.fold_left (fun acc o -> if starts_with "note script=" o then split_on '/' (String.sub o 12 (String.length o - 12)) else acc) [] ops in
+      let reqs = List.filter (fun o -> starts_with "search " o || starts_with "gai " o || starts_with "ghbn " o) ops in
+      let flags = match field cfgw "flags" with
+        | None -> 256
+        | Some l -> List.fold_left (fun a f -> a lor (try List.assoc f flag_bits with Not_found -> (match int_of_string_opt f with Some n -> n | None -> 0))) 0 (split_on ',' l) in
+      let ndots = match field cfgw "ndots" with Some n -> int_of_string n | None -> 1 in
+      let doms = match field cfgw "domains" with Some "-" | None -> [] | Some l -> split_on ',' l in
+      let env = match field cfgw "hostaliases" with
+        | None -> None
+        | Some p -> (match read_file p with Some s -> Some (Ok (bytes_of_string s)) | None -> Some (Err aRES_ENOTFOUND)) in
+      let cfg = { c_flags = z_of_int flags; c_ndots = n_of_int ndots; c_domains = List.map bytes_of_string doms } in
+      (* log lines of request number r (0-based): from its REQ line to the next REQ *)
+      let split_by_req =
+        let cur = ref (-1) in
+        let tbl = Hashtbl.create 4 in
+        List.iter (fun l -> if starts_with "REQ " l then incr cur; if !cur >= 0 then Hashtbl.add tbl !cur l) lines;
+        fun r -> List.rev (Hashtbl.find_all tbl r) in
+      (* evaluate one request; returns Some (summary of what the implementation did) when it was judged *)
+      let eval r req script =
+        let rw = words req in
+        let api = List.nth rw 0 in
+        let tokname = "t" ^ (match List.nth_opt rw 1 with Some t -> t | None -> "1") in
+        let nm = (match List.nth_opt rw 2 with Some "-" -> "" | Some s -> s | None -> "") in
+        let fam = if api = "search" then 4 else (match List.nth_opt rw 3 with Some f -> int_of_string f | None -> 0) in
+        let unspec = api <> "search" && fam = 0 in
+        let rlines = split_by_req r in
+        let qn = bytes_of_string nm in
+        let al = lookup_hostaliases cfg.c_flags qn env in
+        let tok i = match List.nth_opt script i with Some t when t <> "" -> t | _ -> (if unspec then "aXX" else "X") in
+        let o1 i = let t = tok (int_of_nat i) in ai_of_letter t.[0] in
+        let o2 i = let t = tok (int_of_nat i) in
+          if String.length t >= 3 then (ai_of_letter t.[1], ai_of_letter t.[2]) else (ai_of_letter 'X', ai_of_letter 'X') in
+        let osearch i = let t = tok (int_of_nat i) in z_of_int (status_of_letter t.[0]) in
+        let onion = is_onion_domain qn in
+        let cands = match al with Ok a -> Some (spec_candidates cfg a qn) | _ -> None in
+        (* specification *)
+        let ospec c = if api = "search" then osearch
+          else if unspec then (fun i -> let (f, l) = o2 i in ai_status (ai2_combine (cand_single c i) f l))
+          else (fun i -> ai_status (o1 i)) in
+        let spec = if onion then Some ([], aRES_ENOTFOUND)
+          else match al, cands with
+            | Ok _, Some c -> Some (spec_queried c (ospec c), spec_status c (ospec c))
+            | Err s, _ -> Some ([], s)
+            | _ -> None in
+        (* code-shaped model, with and without the patches *)
+        let model fixed =
+          if api = "search" then (match search_int true cfg qn env osearch with Ok r -> Some r | _ -> None)
+          else if onion then Some ([], aRES_ENOTFOUND)
+          else (match search_name_list cfg qn env with
+              | Err s -> Some ([], s)
+              | Ok l -> (match strip_none l with
+                  | Ok names -> (match (if unspec then ai2_run fixed names o2 else ai_run names o1) with Ok r -> Some r | _ -> None)
+                  | _ -> None)
+              | UB _ -> None) in
+        let expand (sent, st) =
+          let names = List.map (fun n -> wire_norm (string_of_bytes n)) sent in
+          let qs = if unspec then List.concat_map (fun n -> [n ^ "/1"; n ^ "/28"]) names
+            else List.map (fun n -> n ^ (if fam = 6 then "/28" else "/1")) names in
+          Printf.sprintf "tx=[%s] status=%s" (String.concat "," qs) (string_of_z st) in
+        let txs = List.filter_map (fun l -> if starts_with "TX " l then
+                      (let w = words l in match field w "qname", field w "qtype" with
+                        | Some q, Some t -> Some (wire_norm q ^ "/" ^ t) | _ -> None) else None) rlines in
+        let cbs = List.filter (starts_with ("CB " ^ tokname ^ " ")) lines in
+        let unsendable = (not onion) && (match cands with Some c -> List.exists (fun n -> not (sendable (string_of_bytes n))) c | None -> false) in
+        let shape = match spec, cands with
+          | Some (q, s), Some c when not onion ->
+            let st = int_of_z s and nq = List.length q and n = List.length c in
+            (if nq < n then (if st = 0 then "stop-data" else "stop-hard")
+             else if st = 0 then "last-data" else if st = 1 then "exhaust-nodata" else if st = 4 then "exhaust-notfound"
+             else if st = 3 || st = 6 then "last-servfail-refused" else "last-hard") ^ (if n = 1 then "-1cand" else "-ncand")
+          | _ -> "no-query" in
+        let apiname = if api = "search" then "search" else api ^ (string_of_int fam) in
+        if unsendable then (if r = 0 then Printf.printf "CASE %d trivial-unsendable-candidate\n" k; None)
+        else begin
+          if r = 0 then Printf.printf "CASE %d %s-%s%s\n" k apiname shape (match al with Ok (Some _) -> "-alias" | _ -> "");
+          match cbs with
+          | [] -> if not monitor then Printf.printf "FAIL %d no-callback request %d: %s\n" k (r + 1) (String.concat " / " (List.filter (starts_with "ENDSTATE") lines)); None
+          | cb :: rest ->
+            let st = match field (words cb) "status" with Some s -> s | None -> "?" in
+            let istr = Printf.sprintf "tx=[%s] status=%s" (String.concat "," txs) st in
+            (match model true with
+             | Some m -> if expand m <> istr then
+                 Printf.printf "DIFF %d request %d model=[%s] impl=[%s]%s\n" k (r + 1) (expand m) istr
+                   (match model false with Some p when expand p = istr -> " (= model of the code WITHOUT fixes/C12-gai-unspec-nodata.patch)" | _ -> "")
+             | None -> Printf.printf "DIFF %d request %d: model has no result; impl=[%s]\n" k (r + 1) istr);
+            (match spec with
+             | Some s -> if expand s <> istr then Printf.printf "FAIL %d stop-rule request %d script=[%s] spec=[%s] impl=[%s]\n" k (r + 1) (String.concat "/" script) (expand s) istr
+             | None -> ());
+            if rest <> [] || List.exists (fun l -> starts_with "CB " l && (let n = String.length l in n >= 3 && String.sub l (n - 3) 3 = "DUP")) lines then
+              Printf.printf "FAIL %d callback-count more than one callback for request %d\n" k (r + 1);
+            Some istr
+        end in
+      (match reqs with
+       | [] -> Printf.printf "CASE %d trivial-norequest\n" k
+       | [r1] -> ignore (eval 0 r1 script0)
+       | r1 :: r2 :: _ ->
+         let a = eval 0 r1 script0 in
+         let script1 = List.map mirror_tok script0 in
+         let b = eval 1 r2 script1 in
+         (match a, b with
+          | Some x, Some y when x <> y ->
+            Printf.printf "FAIL %d unspec-order the same answers in the opposite arrival order give a different result: script=[%s] -> [%s]; mirrored=[%s] -> [%s]\n"
+              k (String.concat "/" script0) x (String.concat "/" script1) y
+          | _ -> ()))) cases
